@@ -646,6 +646,28 @@ Proof.
   intros Hr. exists sp'. split; [exact Hc'|]. intros key. exact (refused_request_keeps_allocations _ _ _ _ _ _ _ _ key Hacc Hr).
 Qed.
 
+(* C04: over any history of the Exec collection no list loses capacity: once everything taken from a list has been released,
+   pool_capacity_left of that list is at least what it was *)
+Corollary coll_capacity_never_lost os (s : cpool) sp (s' : cpool) tr : CPR s sp -> coll_answers_ok s sp os ->
+  cc_run _ gns gfree gstep bkt gusable s os = Some (s', tr) ->
+  exists sp', run sp tr = Some sp' /\ CPR s' sp' /\
+    forall key n n', cc_nfree _ gns gfree s key = Some n -> cc_nfree _ gns gfree s' key = Some n' ->
+      (forall l', find_list key (a_lists sp') = Some l' -> l_allocs l' = []) -> n <= n'.
+Proof.
+  intros Hcpr Hok Hrun. destruct (coll_refines_spec _ _ _ _ _ Hcpr Hok Hrun) as (sp' & Hr & Hc'). exists sp'. split; [exact Hr|]. split; [exact Hc'|].
+  intros key n n' Hn Hn' Hrel. destruct (nfree_rel _ _ _ _ Hcpr Hn) as (l & Hf & <- & _). destruct (nfree_rel _ _ _ _ Hc' Hn') as (l' & Hf' & <- & _).
+  exact (capacity_never_lost _ _ _ _ _ _ (proj1 Hcpr) Hr Hf Hf' (Hrel l' Hf')).
+Qed.
+
+(* C05: the collection's destructor is its arena's: the blocks go back newest first, each once, with the address and size they
+   were obtained with -- exactly the blocks the Spec holds *)
+Corollary coll_destruction_returns_every_block (s : cpool) sp : CPR s sp ->
+  ar_destroy_calls (cc_ar _ s) = map (fun b => UFree (fst b) (snd b)) (a_held sp) /\ destroy_ok sp (a_held sp) = true.
+Proof.
+  intros (_ & _ & _ & Hheld & Hc & _). unfold ar_destroy_calls. rewrite Hc, Hheld. cbn [rev map app]. split; [reflexivity|].
+  unfold destroy_ok. rewrite Hheld. rewrite Nat.eqb_refl. cbn [andb]. clear. induction (ar_used (cc_ar _ s)) as [|b tl IH]; cbn; [reflexivity|]. rewrite !Z.eqb_refl. cbn [andb]. exact IH.
+Qed.
+
 (* ---------- the constructor ---------- *)
 Theorem construct_refines mk nlists k fence max bs flsize flalign answer (s : cpool) ok evs ls :
   Inv (mk_ast ls) -> (forall m, ListsR [] (mk m) ls) -> (forall m, Forall (fun g => gns g < 2^64) (mk m)) ->
